@@ -10,8 +10,8 @@ claimed = {
  "C08": ("fault_enumeration", "part A: for ChopFile, Copy and concurrent StoreChunk into a real LocalStore a seeded schedule with every file-system call as a scheduling point is recorded, then process death is injected at every file-system point (clean and as a torn write of the file that just grew); an independent zstd+SHA validator inspects the directory, Prune must remove exactly the temporary files, restarts must complete. part B: the real desync extract binary is SIGKILLed while request k is held by a gated HTTP chunk server, for every k: without --in-place the destination is untouched, with it a re-run completes correctly and does not refetch written chunks",
          "exhaustive over file-system points of each recorded schedule (<= 120) and over request indexes of each extract; death = freeze (equivalent to SIGKILL for file contents); torn writes at whole-file granularity; power loss out of scope",
          TECH + " (crash-point enumeration with torn writes, independent store validator, real binary under a gated server)"),
- "C05": ("exploration", "random trees with hostile names and full metadata are packed and unpacked through the real Tar/UnTar, through the five-stage chunked pipeline (Tar -> pipe -> ChunkStream -> index -> UnTarIndex) under the seeded scheduler with a slow store, through GNU-tar output and tar-stream input, under both digests; oracle: metadata+content snapshot equality, byte-identical repeated packing, chunked bytes == direct archive",
-         "sampling; metadata fidelity is input coverage (stated partial scope), the simulated part is the chunked pipeline; mtree output, fifos and sockets not exercised; CLI flag handling mirrored, not executed",
+ "C05": ("exploration", "random trees with hostile names and full metadata are packed and unpacked through the real Tar/UnTar, through the five-stage chunked pipeline (Tar -> pipe -> ChunkStream -> index -> UnTarIndex) under the seeded scheduler with a slow store, through GNU-tar and mtree output and (possibly truncated) tar-stream input, under both digests, in the bubble and through the real tar/untar/mtree commands; oracle: metadata+content snapshot equality, byte-identical repeated packing, chunked bytes == direct archive",
+         "sampling; metadata fidelity is input coverage (stated partial scope), the simulated part is the chunked pipeline; fifos and sockets not exercised; xattrs/device numbers not compared for mtree output, xattrs/sub-second times not for GNU tar output",
          TECH + " (seeded scheduler over the chunked tar pipeline, snapshot oracle)"),
  "C04": ("fault_enumeration", "generated indexes are written with the real encoder, checked against an independent caibx parser, read back through a fragmenting stream, the local index store and the HTTP index client/server; then every strict prefix (torn write / cut connection), swapped offsets, an over-long chunk and a flipped digest flag must be rejected; casync-made fixtures must re-encode byte-identically",
          "exhaustive over prefixes of each generated file (stream mode; <= 600 evenly spaced prefixes per file through stores); the round-trip half is input coverage, not simulation (stated partial scope); console and S3 index stores not exercised",
